@@ -215,7 +215,7 @@ impl<const N: u32> PxE2<{ N }> {
 
             let (mut regime, reg_sz, reg_z) = Self::calculate_regime(k_z);
 
-            let u_z = if reg_z > (N - 2) {
+            let u_z = if reg_z + 2 > N {
                 //max or min pos. exp and frac does not matter.
                 if reg_sz {
                     0x_7FFF_FFFF & Self::mask()
@@ -230,18 +230,18 @@ impl<const N: u32> PxE2<{ N }> {
                     frac64_z &= 0x_3FFF_FFFF_FFFF_FFFF;
                     frac_z = (frac64_z >> (reg_z + 34)) as u32; //frac32Z>>16;
 
-                    if reg_z <= (N - 4) {
+                    if reg_z + 4 <= N {
                         bit_n_plus_one =
                             ((0x_8000_0000_0000_0000_u64 >> (N - reg_z - 2)) & frac64_z) != 0;
                         bits_more |=
                             ((0x_7FFF_FFFF_FFFF_FFFF_u64 >> (N - reg_z - 2)) & frac64_z) != 0;
                         frac_z &= Self::mask();
                     } else {
-                        if reg_z == (N - 2) {
+                        if reg_z + 2 == N {
                             bit_n_plus_one = (exp_z & 0x2) != 0;
                             bits_more |= (exp_z & 0x1) != 0;
                             exp_z = 0;
-                        } else if reg_z == (N - 3) {
+                        } else if reg_z + 3 == N {
                             bit_n_plus_one = (exp_z & 0x1) != 0;
                             exp_z &= 0x2;
                         }
@@ -260,7 +260,11 @@ impl<const N: u32> PxE2<{ N }> {
                     frac_z = 0;
                 }
 
-                exp_z <<= 28 - reg_z;
+                exp_z = if reg_z <= 28 {
+                    exp_z << (28 - reg_z)
+                } else {
+                    exp_z >> (reg_z - 28)
+                };
 
                 let mut u_z = Self::pack_to_ui(regime, exp_z as u32, frac_z);
 
